@@ -324,7 +324,7 @@ def run(prop, tier):
                         assumptions=["the loopback mock in harness/hx-agones speaks the Kubernetes LIST/WATCH protocol as a real API server does "
                                      "(chunked watch stream, 410 as an ERROR Status event, BOOKMARK events, resourceVersions)",
                                      "convergence is asynchronous: a step is recorded once discover() equals the expectation and the mock has delivered "
-                                     "everything, or after 5 s (and at least 2 s after delivery); the kube watcher's back-off after an error is 0.8-1.6 s, doubling",
+                                     "everything, or after 12 s (and at least 2 s after delivery; 30 s at most); the kube watcher's back-off after an error is 0.8-1.6 s, doubling",
                                      "metadata is judged as the exact string map the adapter documents (state, counter counts, list values joined by ',', labels, annotations)"])
     vlib.cleanup(wd)
     return rc
